@@ -14,11 +14,11 @@ Open Scope Z_scope.
     channel).  Model of the code under test: [repaired]. *)
 Theorem C18_anim_alpha_preserved :
   forall (rt_ll rt_ly : img -> img) (W H : Z) (opts : eopts) (frames : list (img * Z))
-         (oracle : nat -> orc) (simple : bool) (st0 : est) (out : output),
+         (oracle : nat -> orc) (has_meta simple : bool) (st0 : est) (out : output),
     codec_lossless rt_ll -> codec_alpha_exact rt_ly ->
     wf_canvas_dims W H -> alpha_opts opts -> frames <> [] -> Forall wf_input frames ->
     new_encoder W H opts = Some st0 ->
-    close simple (run_frames repaired oracle st0 frames) = Some out ->
+    close has_meta simple (run_frames repaired oracle st0 frames) = Some out ->
     same_show_by alpha_only W H (eo_loop opts) out (playback rt_ll rt_ly repaired out)
                  (inputs_of W H frames).
 Proof. exact anim_alpha_preserved. Qed.
